@@ -687,7 +687,21 @@ func checkMatchAllFallback(c *Check, fn *ssa.Function, kAll int64) {
 		c.Bad(key, p.FuncPos(fn), "no call of the match-all leaf's matchAll on the LAST leaf (leaves[len-1]) after the subtree loop: a trailing match-all route is never tried after alternatives that continue with further segments")
 		return
 	}
-	in, path := Query{Fn: fn, Cut: union(noLeaf, notAll, maFailed, assertFailed)}.Reach(done, 0, falseVerdict(fn))
+	// the last leaf's header gate rejecting this request's headers is a failed attempt too (the gate asked by the
+	// caller instead of inside matchAll; that it is asked at all is C09.R1)
+	gateFailed := EdgeSet{}
+	if hi := headerParam(fn); hi >= 0 {
+		gate := func(v ssa.Value) bool {
+			cl := asCall(v)
+			if cl == nil || !strings.HasSuffix(callName(&cl.Call), ").matchHeader") {
+				return false
+			}
+			as := callArgs(&cl.Call)
+			return len(as) == 2 && last(leafRoot(as[0])) && vParam(fn, hi)(as[1])
+		}
+		gateFailed = edgesWhere(fn, cBool(gate), false)
+	}
+	in, path := Query{Fn: fn, Cut: union(noLeaf, notAll, maFailed, assertFailed, gateFailed)}.Reach(done, 0, falseVerdict(fn))
 	if in == nil {
 		c.OK(key, p.FuncPos(fn), "post-loop no-match returns only via len(leaves)==0, style(last) != all, or matchAll(last) == false", numInstrs(fn))
 	} else {
